@@ -17,7 +17,8 @@ def eps_of(*arrays):
     return e or float(np.finfo("float64").eps)
 
 
-def dense_equal(got, want, sig, exact=True, scale=None, K=1, what=""):
+def dense_equal(got, want, sig, exact=True, scale=None, K=1, what="",
+                eps=None):
     got = np.asarray(got)
     want = np.asarray(want)
     if got.shape != want.shape:
@@ -31,7 +32,7 @@ def dense_equal(got, want, sig, exact=True, scale=None, K=1, what=""):
     else:
         if scale is None:
             scale = max(1.0, float(np.max(np.abs(want))) if want.size else 1.0)
-        tol = 64 * eps_of(got, want) * max(K, 1) * scale
+        tol = 64 * max(eps or 0.0, eps_of(got, want)) * max(K, 1) * scale
         ok = bool(np.all(np.abs(got - want) <= tol))
     if not ok:
         diff = np.abs(got - want)
